@@ -171,7 +171,7 @@ fn tok_bytes(t: Tok, k: usize, first_headers: bool, side_is_server: bool) -> Vec
             raw::data_frame(&p)
         }
         Tok::Unknown0 => rf::frame(0x21 + 0x1f * 3, &[]),
-        Tok::UnknownN => rf::frame(0x0f, b"unknown frame payload \x00\x01\x04\x07"),
+        Tok::UnknownN => rf::frame(rf::unknown_type(1), b"unknown frame payload \x00\x01\x04\x07"),
         Tok::CancelPush => rf::varint_frame(rf::T_CANCEL_PUSH, 1),
         Tok::Settings => rf::settings_frame(&[(rf::S_MAX_FIELD_SECTION_SIZE, 4096)]),
         Tok::Goaway => rf::varint_frame(rf::T_GOAWAY, 0),
@@ -629,6 +629,8 @@ fn classify(obs: &[Step], exp: &[Step]) -> String {
 
 fn run_case(gen: &str, index: u64, seed: u64, _tier: Tier, rep: &mut Report) {
     let mut rng = Rng::new(seed);
+    // which unassigned frame types stand for "unknown" in this case
+    rf::set_unknown_salt(seed);
     match gen {
         "all_sequences" => {
             let seq = seq_from_index(index);
